@@ -10,14 +10,14 @@ import os
 
 import numpy as np
 
-from .. import core, cover, gen
+from .. import bus, core, cover, gen
 
 LEVEL = 'exploration'
 JOBS = {'quick': 4, 'thorough': 16}
 REQUIRED_MONITORS = ('alignment_postcondition', 'repeat_bit_identical', 'caller_objects_unchanged', 'repeat_in_other_interpreter')
 REQUIRED_CLASSES = ('session:stored-molecule-reshaped-in-place', 'mobile:collinear-neighbours', 'session:re-aligned', 'session:molecule-replaced', 'session:multi-residue', 'sizes:start-smaller', 'sizes:start-larger', 'sizes:tie', 'mobile:tree', 'mobile:cyclic',
                     'mobile:one-atom', 'hydrogens:ignored', 'hydrogens:kept', 'restraints:none', 'restraints:some',
-                    'types:(0,)', 'types:(1,)', 'types:(2,)', 'types:(0, 1)', 'types:default', 'shipped', 'end:one-atom')
+                    'types:(0,)', 'types:(1,)', 'types:(2,)', 'types:(0, 1)', 'types:default', 'shipped', 'end:one-atom', 'session:alignment-interrupted-and-object-kept', 'repeat:other-kind-of-stdout')
 RULE = ('alignments over (start, end) molecule pairs: sizes 1..40 in both orders and ties, mobile molecule a random tree or a '
         'cyclic graph, shipped pairs; restraint lists empty/partial/full/duplicated; every admissible non-empty subset of '
         'deformation types and the default; ignore_hydrogens on/off with random hydrogens; STEPS_FACTOR in {1,5,50}; >= 2 '
@@ -373,7 +373,7 @@ def run_session(ctx, case):
     ops = []
     try:
         for step in range(int(rng.integers(2, 5))):
-            op = 'first' if step == 0 else ['again', 'replace-start', 'replace-end', 'replace-both', 'reshape-stored'][int(rng.integers(0, 5))]
+            op = 'first' if step == 0 else ['again', 'replace-start', 'replace-end', 'replace-both', 'reshape-stored', 'interrupted'][int(rng.integers(0, 6))]
             if op == 'reshape-stored':
                 # the molecules the Alignment holds are live objects: one of them gets the coordinates of another frame
                 # (other bond lengths) assigned in place; "initial" is what it looks like when the alignment starts
@@ -399,11 +399,41 @@ def run_session(ctx, case):
             before = {'start': np.array(ali.start.atoms_positions), 'end': np.array(ali.end.atoms_positions),
                       'names': ([a.name for a in ali.start], [a.name for a in ali.end])}
             np.random.seed(seed)
-            try:
-                ali.align_molecules(restrictions=restr, deformation_types=types, ignore_hydrogens=ignore_h)
-            except Exception as exc:  # noqa
-                ctx.violation(f'alignment-raises:session:{type(exc).__name__}', str(exc)[:200], witness=w)
-                return
+            if op == 'interrupted':
+                # the search is interrupted from outside (Ctrl-C: KeyboardInterrupt out of the k-th random draw), the caller
+                # catches that and keeps the object; an end molecule that is the larger one is still untouched, and the
+                # session goes on with the same Alignment
+                real_choice, left = np.random.choice, [int(rng.integers(1, 25))]
+
+                def choice(*a, **k):
+                    left[0] -= 1
+                    if left[0] <= 0:
+                        raise KeyboardInterrupt()
+                    return real_choice(*a, **k)
+                interrupted = False
+                try:
+                    with bus.patched(np.random, 'choice', choice):
+                        ali.align_molecules(restrictions=restr, deformation_types=types, ignore_hydrogens=ignore_h)
+                except KeyboardInterrupt:
+                    interrupted = True
+                except Exception as exc:  # noqa
+                    ctx.violation(f'alignment-raises:session:{type(exc).__name__}', str(exc)[:200], witness=w)
+                    return
+                if interrupted:
+                    ctx.hit('session:alignment-interrupted-and-object-kept')
+                    if not start_is_mobile and not np.array_equal(np.array(ali.end.atoms_positions), before['end']):
+                        ctx.violation('end-molecule-changed-by-an-interrupted-alignment',
+                                      'the end molecule (not the smaller one) has other coordinates after an alignment that was interrupted', witness=w)
+                    if start_is_mobile and not np.array_equal(np.array(ali.end.atoms_positions), before['end']):
+                        ctx.violation('end-molecule-changed-by-an-interrupted-alignment',
+                                      'the larger end molecule has other coordinates after an alignment that was interrupted', witness=w)
+                    continue
+            else:
+                try:
+                    ali.align_molecules(restrictions=restr, deformation_types=types, ignore_hydrogens=ignore_h)
+                except Exception as exc:  # noqa
+                    ctx.violation(f'alignment-raises:session:{type(exc).__name__}', str(exc)[:200], witness=w)
+                    return
             after = {'start': np.array(ali.start.atoms_positions), 'end': np.array(ali.end.atoms_positions),
                      'names': ([a.name for a in ali.start], [a.name for a in ali.end])}
             ctx.count('evaluations')
